@@ -1,5 +1,7 @@
 package anthropic
 
+import "encoding/json"
+
 import "fmt"
 
 // AnthropicRequest represents an Anthropic API request
@@ -67,6 +69,29 @@ type ContentBlock struct {
 	ID        string                 `json:"id,omitempty"`
 	Name      string                 `json:"name,omitempty"`
 	ToolUseID string                 `json:"tool_use_id,omitempty"`
+}
+
+// MarshalJSON keeps the fields the Messages API requires of a block kind even when they are empty:
+// a parameterless tool call still carries "input": {}, an empty text block still carries "text": "".
+func (b ContentBlock) MarshalJSON() ([]byte, error) {
+	type plain ContentBlock
+	switch b.Type {
+	case contentTypeToolUse:
+		input := b.Input
+		if input == nil {
+			input = map[string]interface{}{}
+		}
+		return json.Marshal(struct {
+			Input map[string]interface{} `json:"input"`
+			plain
+		}{input, plain(b)})
+	case contentTypeText:
+		return json.Marshal(struct {
+			plain
+			Text string `json:"text"`
+		}{plain(b), b.Text})
+	}
+	return json.Marshal(plain(b))
 }
 
 // ImageSource represents image data in content blocks
